@@ -176,11 +176,32 @@ theorem maxData_of_not_low (c : Cfg) (h : lowBudget c = false) : 3 ≤ min 1276 
   · simp [hv] at h; omega
   · simp [hv] at h; omega
 
+/-- No coded frame of the call exceeded its byte budget (the inner-encoder contract "the SILK payload
+    fits the budget"; the bust branch of src/opus_encoder.c:2443-2452 is not taken). -/
+def NoBust (o : CallOr) : Prop := ∀ s ∈ o.subs, s.bust = false
+
+theorem finalPkt_nobust (l : List Bool) (n : Nat) (subs : List Sub) (h : ∀ s ∈ subs, s.bust = false) :
+    finalPkt l n subs = pktOf l n := by
+  unfold finalPkt
+  split
+  · rename_i s
+    have := h s (by simp)
+    simp [this, pktOf]
+  · rfl
+
+/-- The bust packet is never a DTX packet: DTX packets come from `pktOf` alone. -/
+theorem finalPkt_dtx (l : List Bool) (n : Nat) (subs : List Sub) (m : Nat) (h : finalPkt l n subs = .dtx m) :
+    pktOf l n = .dtx m := by
+  unfold finalPkt at h
+  split at h
+  · split at h <;> cases h
+  · exact h
+
 /-- The shape of `encodeCall` on a regular call with well-shaped oracles. -/
 theorem encodeCall_regular (c : Cfg) (st : St) (o : CallOr) (hr : Regular c)
     (hlen : o.subs.length = nSub c o.mode) :
     (encodeCall c st o).1 = (encodeLoop c st o).1 ∧
-    (encodeCall c st o).2.1 = pktOf (encodeLoop c st o).2 (nSub c o.mode) := by
+    (encodeCall c st o).2.1 = finalPkt (encodeLoop c st o).2 (nSub c o.mode) o.subs := by
   have h3 := maxData_of_not_low c hr.2
   unfold encodeCall
   have h1 : ¬ (frameSize c = 0 ∨ min 1276 c.outBytes = 0) := by
@@ -190,12 +211,28 @@ theorem encodeCall_regular (c : Cfg) (st : St) (o : CallOr) (hr : Regular c)
   have h2 : ¬ (min 1276 c.outBytes = 1 ∧ c.fs = frameSize c * 10) := by omega
   simp only [h1, h2, hr.2, if_false, Bool.false_eq_true, hlen, ne_eq, not_true_eq_false, and_self]
 
+theorem switchReset_fields (sdtx : Bool) (st : St) :
+    (switchReset sdtx st).prevMode = st.prevMode ∧ (switchReset sdtx st).silkUseDtx = st.silkUseDtx ∧
+    (switchReset sdtx st).modeNch = st.modeNch ∧ (switchReset sdtx st).mode = st.mode ∧
+    (switchReset sdtx st).nb = (if sdtx ≠ st.silkUseDtx then 0 else st.nb) ∧
+    (switchReset sdtx st).silk = (if sdtx ≠ st.silkUseDtx then { st.silk with c0 := 0, c1 := 0 } else st.silk) := by
+  unfold switchReset; split <;> simp
+
 theorem prepCall_silkUseDtx (c : Cfg) (st : St) (o : CallOr) :
     (prepCall c st o).silkUseDtx = (c.useDtx && !((analysisOn c && o.valid0) || isSilOf c o)) := by
-  unfold prepCall; split <;> rfl
+  unfold prepCall; simp only; split <;> rfl
 
-theorem prepCall_nb (c : Cfg) (st : St) (o : CallOr) : (prepCall c st o).nb = st.nb := by
-  unfold prepCall; split <;> rfl
+/-- `nb_no_activity_ms_Q1` at the start of the frame loop: cleared when the detector in charge changes. -/
+theorem prepCall_nb (c : Cfg) (st : St) (o : CallOr) :
+    (prepCall c st o).nb = (if sdtxOf c o ≠ st.silkUseDtx then 0 else st.nb) := by
+  unfold prepCall; simp only; split <;> exact (switchReset_fields _ _).2.2.2.2.1
+
+theorem prepCall_nb_same (c : Cfg) (st : St) (o : CallOr) (h : sdtxOf c o = st.silkUseDtx ∨ st.nb = 0) :
+    (prepCall c st o).nb = st.nb := by
+  rw [prepCall_nb]
+  rcases h with h | h
+  · simp [h]
+  · split <;> simp [h]
 
 theorem all_id_false_of_mem (l : List Bool) (h : false ∈ l) : l.all id = false := by
   induction l with
@@ -215,8 +252,8 @@ theorem pktOf_of_all_false (l : List Bool) (n : Nat) (h : ∀ d ∈ l, d = false
 
 /-- **DTX disabled**: a regular call never returns a DTX packet (nor a low-budget one). -/
 theorem encodeCall_dtx_off (c : Cfg) (st : St) (o : CallOr) (hr : Regular c) (hoff : c.useDtx = false)
-    (hlen : o.subs.length = nSub c o.mode) : (encodeCall c st o).2.1 = Pkt.normal := by
-  rw [(encodeCall_regular c st o hr hlen).2]
+    (hlen : o.subs.length = nSub c o.mode) (hnb : NoBust o) : (encodeCall c st o).2.1 = Pkt.normal := by
+  rw [(encodeCall_regular c st o hr hlen).2, finalPkt_nobust _ _ _ hnb]
   apply pktOf_of_all_false
   unfold encodeLoop
   rw [hoff]
@@ -227,8 +264,8 @@ theorem encodeCall_dtx_off (c : Cfg) (st : St) (o : CallOr) (hr : Regular c) (ho
     digital silence, some coded frame judged active ⇒ the packet is a normal one. -/
 theorem encodeCall_active (c : Cfg) (st : St) (o : CallOr) (hr : Regular c)
     (hlen : o.subs.length = nSub c o.mode) (hon : analysisOn c = true) (hv0 : o.valid0 = true) (hsil : o.digSil = false)
-    (hact : ∃ s ∈ o.subs, s.valid = true ∧ s.det = true) : (encodeCall c st o).2.1 = Pkt.normal := by
-  rw [(encodeCall_regular c st o hr hlen).2]
+    (hact : ∃ s ∈ o.subs, s.valid = true ∧ s.det = true) (hnb : NoBust o) : (encodeCall c st o).2.1 = Pkt.normal := by
+  rw [(encodeCall_regular c st o hr hlen).2, finalPkt_nobust _ _ _ hnb]
   apply pktOf_of_mem_false
   unfold encodeLoop
   have hs : isSilOf c o = false := by simp [isSilOf, hsil]
@@ -238,22 +275,24 @@ theorem encodeCall_active (c : Cfg) (st : St) (o : CallOr) (hr : Regular c)
   · exact hact
 
 /-- On digital silence with the generalised detector in charge a regular call is the counter
-    machine run over its `nSub` inactive coded frames. -/
+    machine run over its `nSub` inactive coded frames, from the counter the call starts the frame
+    loop with (`st.nb`, or 0 when the generalised detector takes over at this call). -/
 theorem encodeCall_silence (c : Cfg) (st : St) (o : CallOr) (hr : Regular c)
-    (hlen : o.subs.length = nSub c o.mode) (hdtx : c.useDtx = true) (hon : analysisOn c = true) (hsil : o.digSil = true) :
-    (encodeCall c st o).1.nb = (dtxSteps st.nb (List.replicate (nSub c o.mode) (false, subQ1 c o.mode))).2 ∧
-    (encodeCall c st o).2.1 = pktOf (dtxSteps st.nb (List.replicate (nSub c o.mode) (false, subQ1 c o.mode))).1 (nSub c o.mode) := by
+    (hlen : o.subs.length = nSub c o.mode) (hdtx : c.useDtx = true) (hon : analysisOn c = true) (hsil : o.digSil = true)
+    (hnb : NoBust o) :
+    (encodeCall c st o).1.nb = (dtxSteps (prepCall c st o).nb (List.replicate (nSub c o.mode) (false, subQ1 c o.mode))).2 ∧
+    (encodeCall c st o).2.1 = pktOf (dtxSteps (prepCall c st o).nb (List.replicate (nSub c o.mode) (false, subQ1 c o.mode))).1 (nSub c o.mode) ∧
+    (encodeCall c st o).1.silkUseDtx = false := by
   have hreg := encodeCall_regular c st o hr hlen
   have hs : isSilOf c o = true := by simp [isSilOf, hsil, hon]
-  have hfs := frameFlags_silence o.mode (subQ1 c o.mode) o.toCelt (prepCall c st o) o.subs
-      (by rw [prepCall_silkUseDtx, hs]; simp)
-  rw [prepCall_nb] at hfs
+  have hsu : (prepCall c st o).silkUseDtx = false := by rw [prepCall_silkUseDtx, hs]; simp
+  have hfs := frameFlags_silence o.mode (subQ1 c o.mode) o.toCelt (prepCall c st o) o.subs hsu
   have hmap : o.subs.map (fun _ => (false, subQ1 c o.mode)) = List.replicate (nSub c o.mode) (false, subQ1 c o.mode) := by
     rw [← hlen]; exact List.map_const' ..
   rw [hmap] at hfs
-  rw [hreg.1, hreg.2]
+  rw [hreg.1, hreg.2, finalPkt_nobust _ _ _ hnb]
   unfold encodeLoop
-  rw [hdtx, hs, hfs.1, hfs.2]
-  exact ⟨rfl, rfl⟩
+  rw [hdtx, hs, hfs.1, hfs.2, frameFlags_silkUseDtx]
+  exact ⟨rfl, rfl, hsu⟩
 
 end Opus.Dtx
